@@ -4,6 +4,7 @@ mod alloc;
 mod auth;
 mod cborx;
 mod cc;
+mod schemax;
 mod envelope;
 mod text;
 mod updkeys;
@@ -28,6 +29,7 @@ fn main() {
         "text-replay" => text::main(rest),
         "cc-replay" => cc::main(rest),
         "cbor-replay" => cborx::main(rest),
+        "schema-replay" => schemax::main(rest),
         other => {
             eprintln!("unknown subcommand {}", other);
             2
